@@ -85,6 +85,16 @@ theorem readPacketType_errFirst_witness :
     readPacketTypeErrFirst true ⟨[[0x03]], .eof⟩ = none ∧ readPacketTypeErrFirst false ⟨[[0x03]], .eof⟩ = some 3 ∧
     (readPacketG true ⟨id, some, some⟩ ⟨[[0x03]], .eof⟩).1 = .pkt 3 [] := by decide
 
+/-- T2 tie: reading and writing on one `StreamProcessor` share nothing but the transport ends, the two
+(independent) locks and the buffer pool — no scratch buffer of the processor is used by both
+directions, which is what lets the model treat `ReadPacket` and `WritePacket` as functions of their own
+stream only (the `dx` cases drive both on one processor, a write between any two inbound reads). -/
+theorem struct_StreamProcessor :
+    Packet.StreamProcessor_fields =
+      [("*dispose.ManagerBase", "*dispose.ManagerBase", ""), ("reader", "io.Reader", ""), ("writer", "io.Writer", ""),
+       ("readLock", "sync.Mutex", ""), ("writeLock", "sync.Mutex", ""), ("bufferMgr", "*utils.BufferManager", "")] := by
+  decide
+
 /-- **Chunk independence** for *every* byte stream (valid encoding or not): the
 packets returned, the failure stage and the bytes left unread depend only on the
 concatenation of the chunks, never on where the transport cut them. -/
